@@ -451,10 +451,10 @@ def free_surface(ctx):
             def __init__(self):
                 self.box = Bx(V0, [1, 2, 3])
                 self.atoms = At(P0.copy())
-                self.pbc = 'UNSET'
+                self.pbc0 = self.pbc = np.array([True, True, True], dtype=object)      # what supersize hands back: a periodicity array the generator may assign to or write into
 
             def wrap(self):
-                log.append(('wrap', self.atoms.pos.copy(), self.pbc))
+                log.append(('wrap', self.atoms.pos.copy(), [bool(x_) for x_ in self.pbc]))
 
             def box_set(self, **k):
                 log.append(('box_set', k))
@@ -479,10 +479,12 @@ def free_surface(ctx):
         ok = len(ss) == 1 and ss[0][1] == want_m
         ctx.ob('FREE-SURFACE', locs, '%s: the rotated cell is replicated %s (minimum width rounds the cut multiplier up keeping its sign; `even` makes it even)' % (tag, want_m), ok, str(ss), node=sfn, key='mults ' + tag)
         ok = len(wr) == 1 and equal(wr[0][1], P0 + SH, deep=False) and log.index(ss[0]) < log.index(wr[0]) if ss and wr else False
-        ctx.ob('FREE-SURFACE', locs, '%s: all atoms are moved by the termination shift, then wrapped (before the periodicity is switched off)' % tag, bool(ok) and wr[0][2] == 'UNSET', node=sfn, key='shift-wrap ' + tag)
+        ctx.ob('FREE-SURFACE', locs, '%s: all atoms are moved by the termination shift, then wrapped (before the periodicity is switched off)' % tag, bool(ok) and wr[0][2] == [True, True, True], node=sfn, key='shift-wrap ' + tag)
         want_pbc = [True, True, True]
         want_pbc[ci] = False
-        ctx.ob('FREE-SURFACE', locs, '%s: the system is periodic except across the cut' % tag, list(system.pbc) == want_pbc, str(system.pbc), node=sfn, key='pbc ' + tag)
+        ctx.ob('FREE-SURFACE', locs, '%s: the system is periodic except across the cut' % tag, [bool(x_) for x_ in system.pbc] == want_pbc, str(system.pbc), node=sfn, key='pbc ' + tag)
+        ctx.ob('FREE-SURFACE', locs, '%s: the periodicity is assigned to the new system, not written into the array the supercell arrived with (that array may be the rotated cell\'s own: a second surface() would start from a non-periodic cell)' % tag,
+               (system.pbc is not system.pbc0 and [bool(x_) for x_ in system.pbc0] == [True, True, True]) or _supercell_owns_pbc(ctx), str(list(system.pbc0)), node=sfn, key='pbc own ' + tag)
         bs = [l for l in log if l[0] == 'box_set']
         if 'vacuumwidth' in kw:
             Vw = V0.copy()
@@ -496,6 +498,19 @@ def free_surface(ctx):
         ctx.ob('FREE-SURFACE', locs, '%s: the built system is stored and returned' % tag, obj.attrs.get('_FreeSurface__system') is system, node=sfn, key='stored ' + tag)
     ev = SymEval(aliases)
     obj = SymObj(cls, {'shift': arr([0, 0, 0]), 'rcell': None, 'rcellwidth': 3, 'cutindex': 2, 'cutboxvector': 'c', 'set_shift': lambda **k: None}, 'self')
+
+
+def _supercell_owns_pbc(ctx):
+    """System.supersize builds the supercell without handing it the seed's periodicity array (no pbc argument, or a fresh one): then writing into the supercell's flags is harmless"""
+    from .. import effects
+    SYS = 'atomman/core/System.py'
+    fn = ctx.fn(SYS, 'System.supersize')
+    eff = effects.Effects(fn, summaries={'deepcopy': ('fresh',)})
+    calls = [c for c in calls_in(fn) if norm(c.func) == 'System']
+    if len(calls) != 1:
+        return False
+    kw = [k for k in calls[0].keywords if k.arg == 'pbc']
+    return not kw or eff.origins(kw[0].value) == {effects.FRESH}
 
 
 def fault(ctx):
@@ -606,6 +621,43 @@ def fault(ctx):
         ctx.ob('FAULT', loc + 'fault', '%s: atoms above the fault plane move by exactly a1·(a1 vector) + a2·(a2 vector) + out·(cut normal) (or the given vector); atoms below stay' % tag, bool(ok), node=ffn, key='shift ' + tag)
         ctx.ob('FAULT', loc + 'fault', '%s: the stored defect-free system is not modified (the fault is made on a copy) and the copy is wrapped after the shift' % tag,
                equal(orig.atoms.pos, P, deep=False) and len(log) == 1 and equal(log[0][1], want, deep=False), node=ffn, key='copy ' + tag)
+    # minimum_r: the closest pair across the fault is looked for through the system's periodic separation (an upper atom may be closest to a periodic image of a lower one)
+    for tag, Lx, top, bot, images in (('closest pair through a periodic image', 4, [R(39, 10), 0, R(11, 10)], [R(1, 10), 0, R(9, 10)], True), ('closest pair inside the cell', 40, [R(3, 10), 0, R(11, 10)], [R(1, 10), 0, R(9, 10)], False)):
+        Pc = np.array([bot, top], dtype=object)
+        maskc = np.array([False, True])
+        dcalls = []
+
+        class SyC(PyStub):
+            def __init__(self, pos):
+                self.atoms = At(pos)
+
+            def wrap(self):
+                return None
+
+            def dvect(self, p0, p1):
+                dcalls.append(1)
+                d = np.atleast_2d(np.asarray(p1, dtype=object)) - np.atleast_2d(np.asarray(p0, dtype=object))
+                for row in d:
+                    for ax in (0, 1):           # periodic in the fault plane, period Lx
+                        while row[ax] >= R(Lx, 2):
+                            row[ax] -= Lx
+                        while row[ax] < -R(Lx, 2):
+                            row[ax] += Lx
+                return d if len(d) > 1 else d[0]
+        origc = SyC(Pc.copy())
+        obj = SymObj(cls, {'system': origc, 'cutindex': 2, 'abovefault': maskc, 'a1vect_cart': arr([Lx, 0, 0]), 'a2vect_cart': arr([0, Lx, 0]), 'faultpos_cart': R(1)}, 'self')
+        ev = SymEval(aliases)
+        ev.globals = {'deepcopy': lambda x: SyC(x.atoms.pos.copy())}
+        try:
+            r = [q for q in ev.run_fn(ffn, [obj], dict(minimum_r=R(1))) if q.done == 'return']
+        except (Opaque, WouldRaise) as e:
+            raise AnalysisError('StackingFault.fault (minimum_r, %s): %s' % (tag, e))
+        ctx.need(len(r) == 1, 'fault(minimum_r=...) does not reduce to one path (%s)' % tag)
+        z = r[0].ret.atoms.pos[1][2]
+        wantz = R(9, 10) + sp.sqrt(1 - R(4, 100))          # in-plane separation 0.2 (through the image in the first case): out-of-plane separation sqrt(1 - 0.04)
+        ok = abs(float(sp.N(sp.sympify(z) - wantz))) < 1e-9 and bool(dcalls)
+        ctx.ob('FAULT', loc + 'fault', 'minimum_r, %s: the upper crystal is pushed out until the closest pair across the fault (by the periodic separation of the system) is exactly minimum_r apart' % tag, bool(ok),
+               'upper atom ends at height %s, expected %s' % (sp.N(z, 8), sp.N(wantz, 8)), node=ffn, key='minimum_r ' + tag)
     paths = SymEval(aliases).run_fn(ffn, [SymObj(cls, {'system': None, 'cutindex': 2, 'abovefault': None, 'a1vect_cart': None, 'a2vect_cart': None}, 'self')], dict(a1=1, faultshift=arr([1, 0, 0])))
     ctx.ob('FAULT', loc + 'fault', 'fractional shifts together with an explicit vector are refused', not [p for p in paths if p.done == 'return'], node=ffn, key='both')
     # --- shift-vector setters refuse out-of-plane vectors; the two are the same function up to the name
